@@ -420,6 +420,21 @@ struct Collect {
     float_lits: Vec<(usize, usize, String)>,
     casts: Vec<(usize, usize, usize, String)>, // expr start, expr end, whole end, type text
     blocks_open: Vec<usize>,
+    enum_loops: Vec<EnumLoop>,
+}
+
+#[derive(Clone)]
+struct EnumLoop {
+    for_start: usize,
+    pat_start: usize,
+    pat_end: usize,
+    i_text: String,
+    x_text: String,
+    expr_start: usize,
+    expr_end: usize,
+    recv_end: usize,        // end of the receiver of `.enumerate()`
+    simple_vec: Option<String>, // Some(V) when the receiver is `V.iter()` with V a path / field expression
+    body_open_end: usize,
 }
 
 struct ClosureInfo {
@@ -449,6 +464,36 @@ impl<'ast> Visit<'ast> for Collect {
     }
     fn visit_expr_for_loop(&mut self, e: &'ast syn::ExprForLoop) {
         self.loops.push(("for".into(), br(e.body.brace_token.span.open()).0, Some(br(e.expr.span()).0)));
+        if let (syn::Pat::Tuple(pt), syn::Expr::MethodCall(mc)) = (&*e.pat, &*e.expr) {
+            if pt.elems.len() == 2 && mc.method == "enumerate" && mc.args.is_empty() {
+                let (ps, pe) = br(e.pat.span());
+                let (es, ee) = br(e.expr.span());
+                let src_of = |sp: Span| -> (usize, usize) { br(sp) };
+                let (is_, ie) = src_of(pt.elems[0].span());
+                let (xs, xe) = src_of(pt.elems[1].span());
+                let mut simple = None;
+                if let syn::Expr::MethodCall(inner) = &*mc.receiver {
+                    if inner.method == "iter" && inner.args.is_empty() {
+                        if matches!(&*inner.receiver, syn::Expr::Path(_) | syn::Expr::Field(_)) {
+                            let (vs, ve) = br(inner.receiver.span());
+                            simple = Some((vs, ve));
+                        }
+                    }
+                }
+                self.enum_loops.push(EnumLoop {
+                    for_start: br(e.for_token.span).0,
+                    pat_start: ps,
+                    pat_end: pe,
+                    i_text: format!("{}:{}", is_, ie),
+                    x_text: format!("{}:{}", xs, xe),
+                    expr_start: es,
+                    expr_end: ee,
+                    recv_end: br(mc.receiver.span()).1,
+                    simple_vec: simple.map(|(a, b)| format!("{}:{}", a, b)),
+                    body_open_end: br(e.body.brace_token.span.open()).1,
+                });
+            }
+        }
         syn::visit::visit_expr_for_loop(self, e);
     }
     fn visit_expr_loop(&mut self, e: &'ast syn::ExprLoop) {
@@ -553,6 +598,12 @@ impl<'ast> Visit<'ast> for Collect {
     fn visit_lit_float(&mut self, l: &'ast syn::LitFloat) {
         let (s, e) = br(l.span());
         self.float_lits.push((s, e, l.to_string()));
+    }
+    fn visit_lit_int(&mut self, l: &'ast syn::LitInt) {
+        if l.suffix() == "f64" || l.suffix() == "f32" {
+            let (s, e) = br(l.span());
+            self.float_lits.push((s, e, l.to_string()));
+        }
     }
     fn visit_expr_cast(&mut self, e: &'ast syn::ExprCast) {
         let (es, ee) = br(e.expr.span());
@@ -847,9 +898,39 @@ fn finish(
                 continue;
             }
             if names.contains(&base) || (all2d && *arr) {
+                cx.ins(*bs, "(*", false);
                 cx.rep(*be, *is_, ".vx_get(");
-                cx.rep(*we - 1, *we, ")");
+                cx.rep(*we - 1, *we, "))");
                 cx.count("R2(index read -> vx_get)");
+            }
+        }
+    }
+    // R10: `for (i, x) in E.enumerate()` -> index loop (Verus has no spec for Enumerate)
+    if req["r10"].as_bool().unwrap_or(false) {
+        let rng = |t: &str| -> (usize, usize) {
+            let (a, b) = t.split_once(':').unwrap();
+            (a.parse().unwrap(), b.parse().unwrap())
+        };
+        for (k, el) in col.enum_loops.iter().enumerate() {
+            let (is_, ie) = rng(&el.i_text);
+            let (xs, xe) = rng(&el.x_text);
+            let i_txt = src[is_..ie].to_string();
+            let x_txt = src[xs..xe].to_string();
+            match &el.simple_vec {
+                Some(v) => {
+                    let (vs, ve) = rng(v);
+                    let v_txt = src[vs..ve].to_string();
+                    cx.rep(el.pat_start, el.pat_end, &i_txt);
+                    cx.rep(el.expr_start, el.expr_end, &format!("0..{}.len()", v_txt));
+                    cx.ins(el.body_open_end, &format!(" let {} = &{}[{}];", x_txt, v_txt, i_txt), false);
+                    cx.count("R10a(for (i, x) in V.iter().enumerate() -> for i in 0..V.len() { let x = &V[i]; .. })");
+                }
+                None => {
+                    cx.rep(el.for_start, el.expr_start, &format!("let vx_items_{} = ", k));
+                    cx.rep(el.recv_end, el.expr_end, &format!(".collect(); for {} in 0..vx_items_{}.len()", i_txt, k));
+                    cx.ins(el.body_open_end, &format!(" let {} = vx_items_{}[{}];", x_txt, k, i_txt), false);
+                    cx.count("R10b(for (i, x) in ITER.enumerate() -> let items = ITER.collect(); for i in 0..items.len() { let x = items[i]; .. })");
+                }
             }
         }
     }
@@ -1083,6 +1164,7 @@ fn finish(
         "rules": rules,
         "dropped_attrs": dropped_attrs,
         "token_hash": format!("{:016x}", h),
+        "has_body": block.is_some(),
         "n_loops": col.loops.len(),
         "n_closures": col.closures.len(),
         "stripped_tokens_equal_source_modulo_rules": true,
